@@ -64,6 +64,8 @@ class Recorder:
 
     # last case about to be executed, readable by the parent if this process dies
     _crumb = None
+    _dump_path = None
+    _last_dump = 0.0
 
     def breadcrumb(self, text):
         if self._crumb is None:
@@ -78,9 +80,17 @@ class Recorder:
             self._crumb = mmap.mmap(self._crumb_f.fileno(), 1 << 20)
         if self._crumb is False:
             return
-        b = text.encode("utf-8", "surrogatepass")[: (1 << 20) - 8]
-        self._crumb[8:8 + len(b)] = b
+        b = text.encode("utf-8", "surrogatepass")[: (1 << 20) - 16]
+        self._crumb[16:16 + len(b)] = b
         self._crumb[0:8] = len(b).to_bytes(8, "little")
+        self._seq = getattr(self, "_seq", 0) + 1
+        self._crumb[8:16] = self._seq.to_bytes(8, "little")
+        # partial results survive a kill by the supervisor
+        if self._dump_path and self._seq % 500 == 0:
+            import time
+            if time.time() - self._last_dump > 5:
+                self._last_dump = time.time()
+                self.dump(self._dump_path, False)
 
     def dump(self, path, complete):
         hashes = sorted(self.hashes)
@@ -140,7 +150,10 @@ def main(argv):
     with open(argv[2]) as f:
         desc = json.load(f)
     R = Recorder()
+    R._dump_path = argv[3]
     faulthandler.enable()
+    import signal
+    faulthandler.register(signal.SIGUSR1, all_threads=True)
     complete = False
     try:
         mod.run_shard(desc, R)
